@@ -273,6 +273,19 @@ def fam_history(nmax: int = 2, *, batch: int = 2) -> Iterator[Config]:
                     yield Config(spec=spec, requested=req, batch=batch, cof=cof, faults=(f,), history='failed-run_task')
 
 
+def fam_history_abort(nmax: int = 2, *, batch: int = 2) -> Iterator[Config]:
+    """The Lab object (continue_on_failure=False) has been through a run_tasks call that a failure aborted
+    while tasks of limited types were in flight; then tasks of those types."""
+    for n in range(1, nmax + 1):
+        for shape in all_shapes(n):
+            for types in itertools.product(('TK', 'TM'), repeat=n):
+                spec = mk_spec(shape, types=types)
+                req = tuple((i, False) for i in range(n))
+                yield Config(spec=spec, requested=req, batch=batch, cof=False, history='aborted-run_tasks')
+    for types in (('TK', 'TK', 'TK'), ('TM', 'TK', 'TK'), ('TM', 'TM', 'TK')):
+        yield Config(spec=mk_spec(((), (), ()), types=types), requested=tuple((i, False) for i in range(3)), batch=batch, cof=False, history='aborted-run_tasks')
+
+
 def fam_corrupt(nmin: int = 2, nmax: int = 3, *, batch: int = 2) -> Iterator[Config]:
     """Warm caches in which the stored result of one entry is damaged (metadata intact): the entry looks
     cached, cannot be loaded - the task fails; it is not re-run behind the caller's back."""
